@@ -49,6 +49,13 @@ def _solve(idx):
     s.add(*hyps)
     s.add(z3.Not(goal))
     r = s.check()
+    if r == z3.unknown and logic:
+        # quantifiers left (integer-keyed maps): the general solver with model-based instantiation
+        s = z3.Solver()
+        s.set("timeout", int(_CFG["z3_timeout"] * 1000))
+        s.add(*hyps)
+        s.add(z3.Not(goal))
+        r = s.check()
     res = {"idx": idx, "z3": str(r), "z3_s": round(time.time() - t0, 3), "reason": "", "backend": "z3"}
     if r == z3.unknown:
         res["reason"] = s.reason_unknown()
